@@ -311,12 +311,30 @@ def validate_package(out_bytes, in_doc, out_doc, author=SESSION_AUTHOR):
                 if tgt not in names:
                     fails.append(f"relationship {r['id']} of {base} points to missing part {tgt}")
     # revision marks
+    opaque_mark = re.compile(r'<w:(?:ins|del)\b[^>]*?\bw:id="([^"]*)"')
+
     def ids_by_story(doc):
+        """ids of every w:ins / w:del of a story part: marks that are paragraph children and marks inside paragraph /
+        row / cell properties or other opaque content (tracked paragraph marks, tracked rows, ...)"""
         out = {}
-        for name, p in _story_nodes(doc):
-            for n in p["nodes"]:
-                if n["k"] in ("ins", "del"):
-                    out.setdefault(name, []).append(n["id"])
+
+        def walk(x, acc):
+            if isinstance(x, dict):
+                if x.get("k") in ("ins", "del") and "id" in x:
+                    acc.append(x["id"])
+                for v in x.values():
+                    walk(v, acc)
+            elif isinstance(x, list):
+                for v in x:
+                    walk(v, acc)
+            elif isinstance(x, str):
+                acc.extend(opaque_mark.findall(x))
+
+        for i, s in enumerate(doc.get("headers", [])):
+            walk(s["blocks"], out.setdefault(f"header:{s.get('type')}:{i}", []))
+        walk(doc["body"], out.setdefault("body", []))
+        for i, s in enumerate(doc.get("footers", [])):
+            walk(s["blocks"], out.setdefault(f"footer:{s.get('type')}:{i}", []))
         return out
     in_ids, out_ids = ids_by_story(in_doc), ids_by_story(out_doc)
     for story, ids in out_ids.items():
